@@ -291,7 +291,7 @@ func genParents(rng *rand.Rand, n int) [][]int {
 func main() {
 	seed, count, wo, wi, _, done := hv.Args()
 	defer done()
-	errs, hibs, merges := 0, 0, 0
+	errs, hibs, merges, adjChecked := 0, 0, 0, 0
 	for it := 0; it < count; it++ {
 		rng := rand.New(rand.NewSource(seed + int64(it)))
 		n := 1 + rng.Intn(14)
@@ -453,6 +453,12 @@ func main() {
 			outcome = fmt.Sprintf("ok %d %d %d [%s]", common.BeginTime, common.EndTime, common.CommitsNumber, strings.Join(fs, ", "))
 		}
 		fmt.Fprintf(wi, "%s => %s\n", strings.Join(w.log, " "), outcome)
+		if !hasRedundantEdge(parents) {
+			// premise of the merge-flag theorem (Pl.isMerge_of_adjOK): replays of a commit are adjacent in the plan
+			fmt.Fprintf(wo, "adj %s\n", strings.Join(acts, " "))
+			fmt.Fprintln(wi, "true")
+			adjChecked++
+		}
 		cls, what := oracle(w, plan, times, n, ni, err, res)
 		if what == "" {
 			cls, what = lineageOracle(w, parents)
@@ -468,7 +474,7 @@ func main() {
 			hv.Fail(cls, string(js), what)
 		}
 	}
-	hv.Stats(map[string]int{"runs": count, "errors": errs, "hibernates": hibs, "merges": merges})
+	hv.Stats(map[string]int{"runs": count, "errors": errs, "hibernates": hibs, "merges": merges, "plans_adjacency_premise_checked": adjChecked})
 }
 
 // oracle states C14 on the recorded run of the real Pipeline.Run (no model involved).
